@@ -29,7 +29,7 @@ func init() {
 		},
 		Quick:    250000,
 		Thorough: 4000000,
-		Require:  []string{"ping.writeFails", "stream.readEndsInsideNextFrame", "handshake.slow", "received.peerPing", "received.strayAck", "keepalive.pingSent", "tick.exactlyAtPeriod", "tick.foundInactive", "pong.superseded"},
+		Require:  []string{"ping.writeFails", "stream.readEndsInsideNextFrame", "handshake.slow", "received.requestWithSlowHandler", "received.peerPing", "received.strayAck", "keepalive.pingSent", "tick.exactlyAtPeriod", "tick.foundInactive", "pong.superseded"},
 		Assume: []string{
 			"keep-alive counts consecutive inactivity detections (a tick with now > last receive + period) since the last reset; the literal 'more than maxRetries pings unanswered' is never satisfied by any implementation that sends maxRetries pings",
 			"a pong for a superseded ping is accepted as either a reset or not (it is a received message; the statement does not say which wins)",
@@ -50,7 +50,12 @@ func c18Run(e *Env, keepalive bool) {
 		cfg := SimUDPConfig(2000)
 		cfg.TransmissionMaxRetransmit = 2
 		cfg.TransmissionAcknowledgeTimeout = 100 * time.Second // keep ping retransmissions out of the picture
-		cfg.Handler = func(*responsewriter.ResponseWriter[*udpClient.Conn], *pool.Message) {}
+		cfg.Handler = func(_ *responsewriter.ResponseWriter[*udpClient.Conn], r *pool.Message) {
+			// the peer's last sign of life is the arrival of its message, not the moment the application is done with it
+			if p, err := r.Options().Path(); err == nil && p == "/slow" {
+				time.Sleep(period / 2)
+			}
+		}
 		onInactive := func(cc *udpClient.Conn) {
 			e.mu.Lock()
 			closedBy++
@@ -78,7 +83,12 @@ func c18Run(e *Env, keepalive bool) {
 		} else {
 			mon = options.WithInactivityMonitor(period, onInactive)
 		}
-		w = NewCWorld(e, CWorldCfg{Transport: tr, TCPOpts: []tcp.Option{mon, options.WithCloseSocket()}})
+		slowHandler := options.WithHandlerFunc(func(_ *responsewriter.ResponseWriter[*tcpClient.Conn], r *pool.Message) {
+			if p, err := r.Options().Path(); err == nil && p == "/slow" {
+				time.Sleep(period / 2)
+			}
+		})
+		w = NewCWorld(e, CWorldCfg{Transport: tr, TCPOpts: []tcp.Option{mon, slowHandler, options.WithCloseSocket()}})
 	}
 	if w == nil {
 		return
@@ -159,7 +169,11 @@ func c18Run(e *Env, keepalive bool) {
 			m := &WMsg{Type: TNON, Code: 1, MID: w.NextPeerMID(), Token: []byte{0x55, byte(nonce)}, Opts: []WOpt{{Num: OptURIPath, Val: []byte("m")}}}
 			label := fmt.Sprintf("message #%d", nonce)
 			// whatever the peer sends is a sign of life: a request, a ping of its own, a stray acknowledgement or reset
-			switch t.Weighted(4, 2, 1, 1) {
+			switch t.Weighted(4, 2, 1, 1, 2) {
+			case 4:
+				e.Probe("received.requestWithSlowHandler")
+				m.Opts = []WOpt{{Num: OptURIPath, Val: []byte("slow")}}
+				label = fmt.Sprintf("message #%d (its handler takes half a period)", nonce)
 			case 1:
 				e.Probe("received.peerPing")
 				if IsDatagram(tr) {
